@@ -394,7 +394,9 @@ def split_uri(uri):
     else:
         try:
             scheme, netloc, path, query, fragment = parse.urlsplit(uri)
-        except UnicodeError:
+        except ValueError:
+            # UnicodeError is a subclass of ValueError; urlsplit also raises
+            # plain ValueError for e.g. an unbalanced "[" in the authority
             raise ParsingError("Bad URI")
 
     return (
